@@ -543,3 +543,153 @@ pub fn run_filter_write(
     }
     out
 }
+
+/// C07 trial body: offsets, byte dumps and quoted RDH rows of every message against the input.
+pub fn run_truthful(ex: &mut Executor, spec: &ExecSpec, label: &str) -> TrialOutcome {
+    let r = ex.exec(spec);
+    let input = &spec.input;
+    let w = walk(input);
+    let mut out = TrialOutcome { key: case_key(input, &r), labels: vec![label.to_string()], ..Default::default() };
+    if let Some(f) = check_orderly(&r) {
+        out.fail = Some(f);
+        return out;
+    }
+    // messages: stderr (when not muted) and the statistics file
+    let mut texts: Vec<String> = oracle::error_msgs(&r.stderr).into_iter().map(|e| e.text).collect();
+    if let Some(st) = r.stats_file.as_ref().and_then(|b| oracle::parse_stats(b, &spec.stats_ext)) {
+        for m in oracle::reported_errors(&st) {
+            if !texts.contains(&m) {
+                texts.push(m);
+            }
+        }
+    }
+    let mut rdh_at: std::collections::BTreeMap<u64, &itsgen::walker::Pkt> = std::collections::BTreeMap::new();
+    let mut word_at: std::collections::BTreeSet<u64> = std::collections::BTreeSet::new();
+    for p in &w.pkts {
+        rdh_at.insert(p.off as u64, p);
+        if let Ok(ws) = payload_words(&input[p.payload.clone()], p.rdh.data_format, p.payload.start) {
+            for wd in ws {
+                word_at.insert(wd.off as u64);
+            }
+        }
+    }
+    // Known quirk: the tool recognises the payload layout from the payload's bytes 10..15 (all zero
+    // => 16-byte slots) instead of the header's data format. A format-2 payload whose second word
+    // begins with six zero bytes (or a format-0 one whose bytes 10..15 are not all zero) is then cut
+    // with the wrong slot size while offsets follow the header: violations inside such a packet get
+    // their own site so that they can be told apart.
+    let misdetected = |off: u64| -> bool {
+        w.pkts.iter().any(|p| {
+            let pl = &input[p.payload.clone()];
+            let zero6 = pl.len() >= 16 && pl[10..16].iter().all(|&b| b == 0);
+            let inside = off >= p.off as u64 && off < p.payload.end as u64;
+            inside && ((p.rdh.data_format != 0 && zero6) || (p.rdh.data_format == 0 && pl.len() > 10 && !zero6))
+        })
+    };
+    let mut checked = 0u64;
+    for t in &texts {
+        let e = oracle::parse_err_text(t);
+        let Some(off) = e.offset else { continue };
+        if t.starts_with("FATAL") {
+            continue;
+        }
+        let tagm = |m: String| format!("{m} [cmd: {} ; {:?}]", spec.cmdline(), spec.input_mode);
+        if off >= input.len() as u64 {
+            out.fail = fail("truthful", "offset-outside-input", tagm(format!("offset {off:#X} >= input length {:#X}: {}", input.len(), crate::trials::clip_pub(t))));
+            return out;
+        }
+        let first_line = t.lines().next().unwrap_or("");
+        // byte dump at the end of the first line
+        let dump = first_line.rfind('[').and_then(|i| {
+            let inner = first_line[i + 1..].trim_end().trim_end_matches(']');
+            let toks: Vec<&str> = inner.split_whitespace().collect();
+            if toks.len() == 10 && toks.iter().all(|x| x.len() == 2 && u8::from_str_radix(x, 16).is_ok()) {
+                Some(toks.iter().map(|x| u8::from_str_radix(x, 16).unwrap()).collect::<Vec<u8>>())
+            } else {
+                None
+            }
+        });
+        let is_rdh_msg = t.contains("[E10]") || t.contains("[E11]") || t.contains("Payload error following RDH");
+        if is_rdh_msg {
+            let Some(p) = rdh_at.get(&off) else {
+                out.fail = fail("truthful", "rdh-message-offset", tagm(format!("RDH message at {off:#X}, no RDH starts there: {}", crate::trials::clip_pub(t))));
+                return out;
+            };
+            ex.probe("c07_rdh_messages_checked");
+            if let Some(cur) = t.lines().find(|l| l.trim_start().starts_with("current :")) {
+                let body = cur.trim_start().trim_start_matches("current :").trim_start_matches(' ');
+                let body = body.split("<---").next().unwrap_or(body).trim_end();
+                // the row is `  current :  <rdh>`: two spaces separate the label from the fields
+                if let Some(row) = oracle::parse_rdh_row(&format!("0:  {body}")) {
+                    let h = &p.rdh;
+                    let pairs = [
+                        ("version", h.version as u64, row.version),
+                        ("fee_id", h.fee_id as u64, row.fee_id),
+                        ("system_id", h.system_id as u64, row.system_id),
+                        ("offset_next", h.offset_next as u64, row.offset_next),
+                        ("link_id", h.link_id as u64, row.link_id),
+                        ("packet_counter", h.packet_counter as u64, row.packet_counter),
+                        ("bc", h.bc as u64, row.bc),
+                        ("orbit", h.orbit as u64, row.orbit),
+                        ("data_format", h.data_format as u64, row.data_format),
+                        ("trigger_type", h.trigger_type as u64, row.trigger_type),
+                        ("pages_counter", h.pages_counter as u64, row.pages_counter),
+                        ("stop_bit", h.stop_bit as u64, row.stop_bit),
+                        ("detector_field", h.detector_field as u64, row.detector_field),
+                    ];
+                    for (name, want, got) in pairs {
+                        if want != got {
+                            out.fail = fail(
+                                "truthful",
+                                &format!("current-row-{name}"),
+                                tagm(format!("message at {off:#X}: `current :` row shows {name} = {got:#X}, the RDH there has {want:#X}")),
+                            );
+                            return out;
+                        }
+                    }
+                    ex.probe("c07_current_rows_checked");
+                }
+            }
+        } else {
+            if !word_at.contains(&off) {
+                let site = if misdetected(off) { "word-message-offset:layout-misdetected-from-bytes-10-15" } else { "word-message-offset" };
+                out.fail = fail(
+                    "truthful",
+                    site,
+                    tagm(format!("message offset {off:#X} is not the start of a payload word: {}", crate::trials::clip_pub(t))),
+                );
+                return out;
+            }
+            ex.probe("c07_word_messages_checked");
+            if let Some(d) = dump {
+                let o = off as usize;
+                if o + 10 > input.len() || input[o..o + 10] != d[..] {
+                    let site = if misdetected(off) { "byte-dump:layout-misdetected-from-bytes-10-15" } else { "byte-dump" };
+                    out.fail = fail(
+                        "truthful",
+                        site,
+                        tagm(format!(
+                            "message at {off:#X} quotes {:02X?}, the input has {:02X?}",
+                            d,
+                            &input[o..(o + 10).min(input.len())]
+                        )),
+                    );
+                    return out;
+                }
+                ex.probe("c07_byte_dumps_checked");
+            }
+            if let Some(q) = t.find("ending at 0x").and_then(|i| {
+                let hex: String = t[i + 12..].chars().take_while(|c| c.is_ascii_hexdigit()).collect();
+                u64::from_str_radix(&hex, 16).ok()
+            }) {
+                if !word_at.contains(&q) {
+                    out.fail = fail("truthful", "frame-end-offset", tagm(format!("frame message quotes end {q:#X}, not a word start")));
+                    return out;
+                }
+            }
+        }
+        checked += 1;
+    }
+    out.nontrivial = checked >= 1;
+    out
+}
